@@ -107,6 +107,8 @@ import beartype.typing as btyping
 import jaxtyping as jtyping
 from numpy import dtype
 
+from genjax import _compat
+
 ##########
 # Types  #
 ##########
@@ -131,7 +133,7 @@ VarOrLiteral = Var | Literal
 
 def get_shaped_aval(x):
     """Get the shaped abstract value of a JAX array."""
-    return jc.get_aval(x)
+    return _compat.get_aval(x)
 
 
 @lu.cache
@@ -442,9 +444,11 @@ def initial_style_bind(
                 flat_tangents: tuple[Any, ...] | list[Any],
                 **params,
             ) -> tuple[list[Any], list[Any]]:
-                primals_out, tangents_out = ad.jvp(
-                    lu.wrap_init(impl, params, debug_info=debug_info)
-                ).call_wrapped(flat_primals, flat_tangents)
+                primals_out, tangents_out = jax.jvp(
+                    partial(impl, **params),
+                    tuple(flat_primals),
+                    tuple(safe_map(ad.instantiate_zeros, flat_tangents)),
+                )
 
                 # We always normalize back to list.
                 return list(primals_out), list(tangents_out)
@@ -1219,7 +1223,7 @@ class Environment:
         if v is None:
             assert isinstance(var, Var)
             raise ValueError(
-                f"Unbound variable in interpreter environment at count {var.count}:\nEnvironment keys (count): {list(self.env.keys())}"
+                f"Unbound variable in interpreter environment at count {_compat.var_id(var)}:\nEnvironment keys (count): {list(self.env.keys())}"
             )
         return v
 
@@ -1227,7 +1231,7 @@ class Environment:
         if isinstance(var, Literal):
             return var.val
         else:
-            return self.env.get(var.count)
+            return self.env.get(_compat.var_id(var))
 
     def write(self, var: VarOrLiteral, cell: Any) -> Any:
         """
@@ -1236,10 +1240,10 @@ class Environment:
         if isinstance(var, Literal):
             return cell
         cur_cell = self.get(var)
-        if isinstance(var, jc.DropVar):
+        if _compat.is_drop_var(var):
             return cur_cell
-        self.env[var.count] = cell
-        return self.env[var.count]
+        self.env[_compat.var_id(var)] = cell
+        return cell
 
     def __getitem__(self, var: VarOrLiteral) -> Any:
         return self.read(var)
@@ -1256,7 +1260,7 @@ class Environment:
         """
         if isinstance(var, Literal):
             return True
-        return var.count in self.env
+        return _compat.var_id(var) in self.env
 
     def copy(self):
         """
@@ -1326,7 +1330,7 @@ class Seed:
         safe_map(env.write, jaxpr.invars, args)
         for eqn in jaxpr.eqns:
             invals = safe_map(env.read, eqn.invars)
-            subfuns, params = eqn.primitive.get_bind_params(eqn.params)
+            subfuns, params = _compat.get_bind_params(eqn.primitive, eqn.params)
             args = subfuns + invals
             primitive, inner_params = PPPrimitive.unwrap(eqn.primitive)
 
@@ -1339,7 +1343,7 @@ class Seed:
 
             elif primitive == cond_p:
                 invals = safe_map(env.read, eqn.invars)
-                subfuns, params = eqn.primitive.get_bind_params(eqn.params)
+                subfuns, params = _compat.get_bind_params(eqn.primitive, eqn.params)
                 branch_closed_jaxprs = params["branches"]
                 self.key, sub_key = jrand.split(self.key)
                 branches = tuple(
@@ -1361,8 +1365,7 @@ class Seed:
                 body_jaxpr = params["jaxpr"]
                 length = params["length"]
                 reverse = params["reverse"]
-                num_consts = params["num_consts"]
-                num_carry = params["num_carry"]
+                num_consts, num_carry = _compat.scan_num_consts_carry(params)
                 const_vals, carry_vals, xs_vals = split_list(
                     invals, [num_consts, num_carry]
                 )
@@ -1512,7 +1515,7 @@ class ModularVmap:
         safe_map(env.write, jaxpr.invars, flat_args)
         for eqn in jaxpr.eqns:
             invals = safe_map(env.read, eqn.invars)
-            subfuns, params = eqn.primitive.get_bind_params(eqn.params)
+            subfuns, params = _compat.get_bind_params(eqn.primitive, eqn.params)
             args = subfuns + invals
 
             # Probabilistic.
@@ -1529,7 +1532,7 @@ class ModularVmap:
 
             elif eqn.primitive == cond_p:
                 invals = safe_map(env.read, eqn.invars)
-                subfuns, params = eqn.primitive.get_bind_params(eqn.params)
+                subfuns, params = _compat.get_bind_params(eqn.primitive, eqn.params)
                 branch_closed_jaxprs = params["branches"]
                 branches = tuple(
                     partial(
@@ -1552,8 +1555,7 @@ class ModularVmap:
                 length = params["length"]
                 reverse = params["reverse"]
                 unroll = params["unroll"]
-                num_consts = params["num_consts"]
-                num_carry = params["num_carry"]
+                num_consts, num_carry = _compat.scan_num_consts_carry(params)
                 const_vals, carry_vals, xs_vals = split_list(
                     invals, [num_consts, num_carry]
                 )
